@@ -26,8 +26,17 @@ def build():
     return _built["ok"]
 
 
+def generator_of(unit):
+    """the witness generator serving a unit: unit.json may name another one ("witness_unit")"""
+    uj = os.path.join(VERIF, "units", unit, "unit.json")
+    g = unit
+    if os.path.exists(uj):
+        g = json.load(open(uj)).get("witness_unit", unit)
+    return g if os.path.exists(os.path.join(CRATE, "src", g.lower() + "_unit.rs")) else None
+
+
 def has_generator(unit):
-    return os.path.exists(os.path.join(CRATE, "src", unit.lower() + "_unit.rs"))
+    return generator_of(unit) is not None
 
 
 def _run(args, timeout=120):
@@ -52,11 +61,12 @@ def search_witness(prop, unit, fnpath, failure):
         return None
     if not build():
         return {"found": False, "error": "replay crate did not build: " + _built["log"][-500:]}
-    d = _run([unit, "search"])
+    gen = generator_of(unit)
+    d = _run([gen, "search"])
     if d is None:
         return {"found": False, "error": "witness generator produced no result"}
     d["kind"] = "bounded search on the real crate (not the deciding step)"
-    d["replay_args"] = [unit, "run", d.get("input", "")]
+    d["replay_args"] = [gen, "run", d.get("input", "")]
     return d
 
 
